@@ -6,6 +6,16 @@ HERE = os.path.dirname(os.path.dirname(os.path.abspath(__file__)))
 
 # id -> (category, technique, level text, level note, design ref)
 CHECKS = {
+ "C17": ("exploration",
+         "property-based testing: metamorphic relations over pipeline requests (all / by name / alone)",
+         "Generated files with 0-4 pipelines (compute, vertex+pixel, mesh+pixel, task+mesh; prefix-related names; shared readers, resources, statics; different default bind groups) are compiled for a random target under the requests all / each name / unknown name / no-pipeline mode. One result per definition in order, by-name equals the element of the whole-file result, unknown name and empty files fail with the documented message, and each pipeline's full snapshot (source, stages, metadata, state or diagnostic) equals the one obtained from the file with all other Pipeline blocks deleted. 2 400 files quick, 60 000 thorough.",
+         "A pipeline rejected by a back-end diagnostic must be rejected identically in every request; front-end rejections are skipped and counted. 'Other pipelines absent' is modelled by deleting the Pipeline blocks, keeping their entry functions.",
+         "DESIGN.md section 3, C17"),
+ "C18": ("exploration",
+         "property-based testing: cross-target differential relations",
+         "Generated programs with resources of every kind and 1-3 pipelines, accepted or carrying one injected front-end error, are compiled for DirectX, Vulkan, Vulkan with buffer addresses and Metal. Front-end diagnostics must be identical strings on all targets, DirectX and Vulkan must succeed or fail together with texts equal up to binding/attribute annotations, and all successful targets must report the same stages, thread-group sizes, pipeline state and binding name/type/count sets (static samplers and buffer addresses aside). Includes inputs that test __HLSL_VERSION and defined(RSSL_TARGET_*). 3 000 programs x 4 targets quick, 80 000 thorough.",
+         "Back-end diagnostics are recognised by their 'hlsl generate/format' / 'metal generate/format' prefix.",
+         "DESIGN.md section 3, C18"),
  "C04": ("exploration",
          "property-based testing: round-trip (compile o compile fixpoint) over generated programs and the third-party corpus",
          "For every generated program (typed generator over structs, enums, templates, overloads, statics, arrays, all statement and operator forms) and every one of the 31 third-party corpus entry points, the emitted DirectX HLSL is compiled again: it must be accepted, reproduce itself byte for byte and keep every binding. 4 000 generated programs quick, 100 000 thorough; failures are shrunk on the generator's choice sequence.",
